@@ -46,7 +46,9 @@ def plan(tier, seed):
     for kind, arch in archs(tier):
         for q in range(2):
             for part in range(2):
-                items.append(dict(kind=kind, arch=arch, q=q, part=part))
+                from ..common import net_sizes
+                dev = 2 if (tier == "thorough" and net_sizes(kind, arch)[0] <= 8) else 1
+                items.append(dict(kind=kind, arch=arch, q=q, part=part, dev=dev))
     return items
 
 
@@ -142,7 +144,7 @@ def run_item(item):
     acc = Acc()
     kind, arch = item["kind"], item["arch"]
     first = True
-    for i, (tag, params) in enumerate(param_assignments(kind, arch, npat=1, dev=1, q0=item["q"])):
+    for i, (tag, params) in enumerate(param_assignments(kind, arch, npat=1, dev=item.get("dev", 1), q0=item["q"])):
         if i % 2 != item["part"]:
             continue
         check_case(acc, kind, arch, params)
